@@ -2,7 +2,8 @@
    of functors denoted by the TYPE of each expression, after checking that every construction function -- the operator overloads, make_op,
    _make_op::operator(), the shoup specialisation, expr's constructor -- passes its operands on in order), is the tree the SYNTAX of the
    expression says: the functor of the operator at the root (+ addmod, - submod, * mulmod, == eqmod, != neqmod), the operands' trees left and right,
-   for every combination of polynomial / expression operands; shoup(a * b, c) is the three-operand node mulmod_shoup(a, b, c).  This is what
+   for every combination of polynomial / expression operands; shoup(a * b, c) is the three-operand node mulmod_shoup(a, b, c), compute_shoup(x)
+   the one-operand node compute_shoup(x).  This is what
    the model of C07 (Expr.tree, ExprExec.tr) assumes about the way an expression is turned into a tree. *)
 From Coq Require Import String List Bool.
 From NTT.gen Require Import GenOpNodes.
@@ -10,10 +11,11 @@ Import ListNotations.
 Local Open Scope string_scope.
 
 (* the syntax, as a tree *)
-Inductive sx := V | Bin (f : string) (a b : sx) | Tri (f : string) (a b c : sx).
+Inductive sx := V | Un (f : string) (a : sx) | Bin (f : string) (a b : sx) | Tri (f : string) (a b c : sx).
 Fixpoint show (t : sx) : string :=
   match t with
   | V => "P"
+  | Un f a => f ++ "(" ++ show a ++ ")"
   | Bin f a b => f ++ "(" ++ show a ++ ", " ++ show b ++ ")"
   | Tri f a b c => f ++ "(" ++ show a ++ ", " ++ show b ++ ", " ++ show c ++ ")"
   end.
@@ -25,7 +27,7 @@ Definition expected_for (sym : string) : list (string * string) :=
   let f := functor_of sym in
   [("a " ++ sym ++ " b", show (Bin f V V)); ("a " ++ sym ++ " (b + c)", show (Bin f V sum)); ("(a + b) " ++ sym ++ " c", show (Bin f sum V)); ("(a + b) " ++ sym ++ " (c - d)", show (Bin f sum dif))].
 Definition expected : list (string * string) :=
-  expected_for "+" ++ expected_for "-" ++ expected_for "*" ++ expected_for "==" ++ expected_for "!=" ++ [("shoup(a * b, c)", show (Tri "mulmod_shoup" V V V))].
+  expected_for "+" ++ expected_for "-" ++ expected_for "*" ++ expected_for "==" ++ expected_for "!=" ++ [("shoup(a * b, c)", show (Tri "mulmod_shoup" V V V)); ("compute_shoup(a)", show (Un "compute_shoup" V)); ("compute_shoup(a + b)", show (Un "compute_shoup" sum))].
 Definition pair_eqb (x y : string * string) : bool := String.eqb (fst x) (fst y) && String.eqb (snd x) (snd y).
 Definition same (a b : list (string * string)) : bool := Nat.eqb (List.length a) (List.length b) && forallb (fun x => existsb (pair_eqb x) b) a.
 
